@@ -144,6 +144,11 @@ func (r *Report) finish() int {
 	exit := 0
 	// engine / binding failures => UNDECIDED
 	var undecided []string
+	for _, wmsg := range r.CS.Warnings {
+		if strings.Contains(wmsg, "IGNORED (syntax error)") {
+			undecided = append(undecided, wmsg)
+		}
+	}
 	for _, res := range r.Results {
 		if res.Err != "" {
 			undecided = append(undecided, res.Err)
